@@ -172,10 +172,11 @@ pub proof fn lemma_stride(id: u64, s: u32)
     lemma_mask_is_mod(id >> 32, s);
     let h = (id >> 32) & ((s - 1) as u64);
     assert(id >> 32 == id / 0x1_0000_0000) by (bit_vector);
+    lemma_pow2_mask_test(s);
     let m = (s - 1) as u64;
     assert((id >> 32) & m <= m) by (bit_vector);
     assert((h | 1) == if h % 2 == 0 { add(h, 1) } else { h }) by (bit_vector);
     assert(h < 0x1_0000_0000);
-    assert(m % 2 == 1 || m == 0) by { reveal(is_pow2_u32); }
+    assert(sub(s, 1) % 2 == 1 || s == 1) by (bit_vector) requires s != 0 && s & sub(s, 1) == 0;
     assert(h % 2 == 0 ==> h + 1 <= s);
 }
